@@ -89,7 +89,8 @@ CaseResult run_mapped(const RunCtx &ctx, TapeReader &t, unsigned size_hint) {
     o.eps = Eps;
     o.size_hint = size_hint;
     o.dup_heavy = true;
-    o.max_n = 60000;
+    o.max_n = size_t(1) << 20;   // only the pow2_size class goes beyond 2*10^5
+    o.pow2_sizes = true;
     o.xkeys = ctx.x("xkeys");
     o.xthreads = ctx.x("xthreads");
     std::vector<K> keys = gen_keys<K>(t, o, meta);
